@@ -81,6 +81,28 @@ func VerifH_C03_checkpointConflict() {
 			vpAssert(e.banned(a, banman.InvalidFilterHeaderCheckpoint), "peer-contradicting-a-hard-coded-checkpoint-is-banned")
 		}
 	}
+	// lists that disagree at an index both of them cover (among the peers not
+	// banned for contradicting a hard-coded checkpoint) cannot simply be
+	// accepted: nobody answers the follow-up queries here, so the disagreement
+	// stays unresolved and no list may be chosen
+	disagree := false
+	for x := 0; x < npeers; x++ {
+		for y := x + 1; y < npeers; y++ {
+			if contradicts[addrs[x]] || contradicts[addrs[y]] {
+				continue
+			}
+			lx, ly := served[addrs[x]], served[addrs[y]]
+			for i := 0; i < len(lx) && i < len(ly); i++ {
+				if *lx[i] != *ly[i] {
+					disagree = true
+				}
+			}
+		}
+	}
+	if disagree {
+		vpReach("served-lists-disagree")
+		vpAssert(err != nil, "disagreeing-lists-are-not-accepted-unresolved")
+	}
 	// when every list is a prefix of the truth nobody is banned and a list is chosen
 	if len(contradicts) == 0 {
 		allPrefix := true
